@@ -306,6 +306,8 @@ pub trait Text: LitLike<LBytes = <Self as Text>::Bytes> + Index<Range<usize>, Ou
 
     /// The concrete string, if this is one.
     fn as_str(&self) -> Option<&str>;
+    /// The symbolic text, if this is one.
+    fn as_sym(&self) -> Option<&SymStr>;
 
     /// Run the repository's VM on this text.
     fn run_vm(
@@ -344,6 +346,9 @@ impl Text for str {
     }
     fn as_str(&self) -> Option<&str> {
         Some(self)
+    }
+    fn as_sym(&self) -> Option<&SymStr> {
+        None
     }
     fn run_vm(
         &self,
@@ -438,6 +443,9 @@ impl Text for SymStr {
     }
     fn as_str(&self) -> Option<&str> {
         None
+    }
+    fn as_sym(&self) -> Option<&SymStr> {
+        Some(self)
     }
     fn run_vm(
         &self,
